@@ -78,6 +78,11 @@ type roleIn struct {
 	Leaf     string        `json:"leaf,omitempty"` // task | call (childless roles)
 	IterVar  string        `json:"iter_var,omitempty"`
 	IterVals []string      `json:"iter_vals,omitempty"`
+	// templated range specs (used instead of IterVals when set): range: '[items...]' with literal or
+	// {{ key }} items, or begin:/end: each a literal or {{ key }}
+	IterItems []tv `json:"iter_items,omitempty"`
+	IterBegin *tv  `json:"iter_begin,omitempty"`
+	IterEnd   *tv  `json:"iter_end,omitempty"`
 	Tpl      *roleIn       `json:"tpl,omitempty"`
 	// include role: Defaults/Vars/NameRef are its own, Sub is the root of the sub-workflow it names
 	// (Defaults, Vars, Children; the root's name is the name of the generated document)
@@ -184,7 +189,7 @@ func lvlTerm(l lvl) string {
 
 func roleTerm(r *roleIn) string {
 	if r.Tpl != nil {
-		return fmt.Sprintf("(RIter %s %s %s)", gen.Str(r.IterVar), gen.StrList(r.IterVals), roleTerm(r.Tpl))
+		return fmt.Sprintf("(RIter %s %s %s)", gen.Str(r.IterVar), rangeTerm(r), roleTerm(r.Tpl))
 	}
 	nm := gen.None()
 	if r.NameRef != "" {
@@ -199,6 +204,47 @@ func roleTerm(r *roleIn) string {
 			rmapTerm(r.Sub.Defaults), rmapTerm(r.Sub.Vars), gen.List(ch))
 	}
 	return fmt.Sprintf("(RRole %s %s %s %s)", nm, rmapTerm(r.Defaults), rmapTerm(r.Vars), gen.List(ch))
+}
+
+// rangeTerm: the irange of an iterator as written in its document (see roleDoc)
+func rangeTerm(r *roleIn) string {
+	if r.IterBegin != nil && r.IterEnd != nil {
+		return fmt.Sprintf("(IFor (%s) (%s))", tvTerm(*r.IterBegin), tvTerm(*r.IterEnd))
+	}
+	items := r.IterItems
+	if items == nil {
+		if b, e, ok := numericRun(r.IterVals); ok {
+			return fmt.Sprintf("(IFor (%s) (%s))", tvTerm(tv{Lit: b}), tvTerm(tv{Lit: e}))
+		}
+		for _, v := range r.IterVals {
+			items = append(items, tv{Lit: v})
+		}
+	}
+	it := make([]string, len(items))
+	for i, v := range items {
+		it[i] = tvTerm(v)
+	}
+	return "(IList " + gen.List(it) + ")"
+}
+
+// numericRun: the literal values are consecutive integers in canonical decimal form (written as
+// begin/end in the document)
+func numericRun(vals []string) (string, string, bool) {
+	if len(vals) == 0 {
+		return "", "", false
+	}
+	for i, v := range vals {
+		n, err := strconv.Atoi(v)
+		if err != nil || strconv.Itoa(n) != v || n < 0 {
+			return "", "", false
+		}
+		if i > 0 {
+			if p, _ := strconv.Atoi(vals[i-1]); n != p+1 {
+				return "", "", false
+			}
+		}
+	}
+	return vals[0], vals[len(vals)-1], true
 }
 
 func nlist(a []int) string {
@@ -396,16 +442,19 @@ func tvText(v tv) string {
 func roleDoc(r *roleIn) map[string]any {
 	if r.Tpl != nil {
 		d := roleDoc(r.Tpl)
-		numeric := len(r.IterVals) > 0
-		for i, v := range r.IterVals {
-			n, err := strconv.Atoi(v)
-			if err != nil || strconv.Itoa(n) != v || (i > 0 && func() bool { p, _ := strconv.Atoi(r.IterVals[i-1]); return n != p+1 }()) {
-				numeric = false
+		switch b, e, numeric := numericRun(r.IterVals); {
+		case r.IterBegin != nil && r.IterEnd != nil:
+			d["for"] = map[string]any{"begin": tvText(*r.IterBegin), "end": tvText(*r.IterEnd), "var": r.IterVar}
+		case r.IterItems != nil:
+			items := make([]string, len(r.IterItems))
+			for i, v := range r.IterItems {
+				items[i] = tvText(v)
 			}
-		}
-		if numeric {
-			d["for"] = map[string]any{"begin": r.IterVals[0], "end": r.IterVals[len(r.IterVals)-1], "var": r.IterVar}
-		} else {
+			j, _ := json.Marshal(items)
+			d["for"] = map[string]any{"range": string(j), "var": r.IterVar}
+		case numeric:
+			d["for"] = map[string]any{"begin": b, "end": e, "var": r.IterVar}
+		default:
 			j, _ := json.Marshal(r.IterVals)
 			d["for"] = map[string]any{"range": string(j), "var": r.IterVar}
 		}
@@ -584,31 +633,6 @@ func loadTree(tmp string, in input) (workflow.Role, lvl, error) {
 	return root, env, err
 }
 
-// iterLocals describes the input tree: the addresses (in the expanded tree, iterators flattened
-// into their parent's children) of the roles generated by an iterator, with variable and value.
-func iterLocals(t *roleIn) []string {
-	var out []string
-	var role func(r *roleIn, addr []int)
-	role = func(r *roleIn, addr []int) {
-		idx := 0
-		for _, c := range r.kids() {
-			if c.Tpl != nil {
-				for _, v := range c.IterVals {
-					a := append(append([]int{}, addr...), idx)
-					out = append(out, gen.Pair(nlist(a), gen.Pair(gen.Str(c.IterVar), gen.Str(v))))
-					role(c.Tpl, a)
-					idx++
-				}
-			} else {
-				role(c, append(append([]int{}, addr...), idx))
-				idx++
-			}
-		}
-	}
-	role(t, []int{0})
-	return out
-}
-
 func caseTree(tmp string, in input) gen.Case {
 	root, env, err := loadTree(tmp, in)
 	ops := make([]string, len(in.Ops))
@@ -638,7 +662,7 @@ func caseTree(tmp string, in input) gen.Case {
 		}
 		obsTerm = gen.Some(gen.List(it))
 	}
-	term := fmt.Sprintf("CTree %s %s %s %s %s", lvlTerm(env), roleTerm(in.Tree), gen.List(ops), gen.List(iterLocals(in.Tree)), obsTerm)
+	term := fmt.Sprintf("CTree %s %s %s %s", lvlTerm(env), roleTerm(in.Tree), gen.List(ops), obsTerm)
 	var o any = views
 	if err != nil {
 		o = "load failed"
@@ -884,7 +908,8 @@ func genRmap(r *gen.Rand, num, den int, refNum int) map[string]tv {
 	return m
 }
 
-func genRole(r *gen.Rand, depth, maxDepth int, budget *int) *roleIn {
+// outer: the variables of the iterators whose template the role is generated in (nearest last)
+func genRole(r *gen.Rand, depth, maxDepth int, budget *int, outer []string) *roleIn {
 	*budget--
 	ro := &roleIn{Defaults: genRmap(r, 1, 3, 2), Vars: genRmap(r, 1, 3, 2)}
 	if r.Chance(1, 4) {
@@ -896,29 +921,57 @@ func genRole(r *gen.Rand, depth, maxDepth int, budget *int) *roleIn {
 			n = r.Range(2, 3)
 		}
 		for i := 0; i < n && *budget > 0; i++ {
-			c := genRole(r, depth+1, maxDepth, budget)
-			isInc := false
+			// whether the role is generated by an iterator is decided first, so that what is
+			// generated inside the template knows the enclosing iterator variables
+			var it *roleIn
+			if r.Chance(3, 10) {
+				it = &roleIn{IterVar: []string{"i", "j", "k"}[len(outer)%3]}
+				if r.Chance(1, 3) {
+					it.IterVar = r.Pick(alphabet) // the iterator variable collides with a key
+				}
+				switch {
+				case len(outer) > 0 && len(outer) < 3 && r.Chance(3, 4):
+					// nested: the range depends on the enclosing iteration, directly or through a var
+					// that the role the iterator sits in defines per outer expansion
+					ref := outer[r.Intn(len(outer))]
+					if r.Chance(1, 3) {
+						k := r.Pick(alphabet)
+						ro.Vars[k] = tv{Ref: ref}
+						ref = k
+					}
+					if r.Chance(1, 2) {
+						it.IterBegin, it.IterEnd = &tv{Lit: "0"}, &tv{Ref: ref}
+					} else {
+						it.IterItems = []tv{{Ref: ref}, {Lit: r.Pick(values)}}[:r.Range(1, 2)]
+					}
+				case r.Chance(1, 5): // a range that refers to a key of the workflow
+					it.IterItems = []tv{{Ref: r.Pick(alphabet)}, {Lit: r.Pick(values)}}[:r.Range(1, 2)]
+				case r.Chance(1, 2):
+					it.IterVals = [][]string{{"0", "1"}, {"1", "3"}, {"0", "2"}, {"2"}, {"1"}, {"1", "2", "3"}}[r.Intn(6)]
+				default:
+					it.IterVals = []string{r.Pick(values), r.Pick(values)}[:r.Range(1, 2)]
+				}
+			}
+			sub := outer
+			if it != nil {
+				sub = append(append([]string{}, outer...), it.IterVar)
+			}
+			c := genRole(r, depth+1, maxDepth, budget, sub)
 			if len(c.Children) > 0 && r.Chance(3, 10) {
 				// include role: c becomes the root of a sub-workflow, the include role gets maps of
 				// its own (dense: they are what the included subtree must see as the nearest ancestor's)
 				c = &roleIn{NameRef: c.NameRef, Defaults: genRmap(r, 1, 2, 2), Vars: genRmap(r, 1, 2, 2),
 					Sub: &roleIn{Defaults: c.Defaults, Vars: c.Vars, Children: c.Children}}
-				isInc = true
+				if it == nil && r.Chance(1, 3) {
+					it = &roleIn{IterVar: "i", IterVals: []string{r.Pick(values), r.Pick(values)}[:r.Range(1, 2)]}
+				}
 			}
-			if r.Chance(1, 5) || (isInc && r.Chance(1, 3)) {
-				it := &roleIn{Tpl: c, IterVar: "i"}
-				if r.Chance(1, 2) {
-					it.IterVar = r.Pick(alphabet) // the iterator variable collides with a key
-				}
-				if r.Chance(1, 2) {
-					it.IterVals = []string{"0", "1"}[:r.Range(1, 2)]
-				} else {
-					it.IterVals = []string{r.Pick(values), r.Pick(values)}[:r.Range(1, 2)]
-				}
+			if it != nil {
+				it.Tpl = c
 				if c.NameRef == "" && r.Chance(1, 2) {
 					c.NameRef = it.IterVar
 				}
-				*budget -= len(it.IterVals) - 1
+				*budget -= 1
 				c = it
 			}
 			ro.Children = append(ro.Children, c)
@@ -953,7 +1006,7 @@ func genTree(r *gen.Rand, tmp string) input {
 	}
 	in.Backend = r.Chance(1, 4)
 	budget := r.Range(3, 14)
-	in.Tree = genRole(r, 1, r.Range(2, 6), &budget)
+	in.Tree = genRole(r, 1, r.Range(2, 6), &budget, nil)
 	// runtime variables at roles of the loaded tree (addresses taken from a trial load)
 	if root, _, err := loadTree(tmp, in); err == nil {
 		addrs := countRoles(root)
@@ -1030,6 +1083,20 @@ func corpus() []struct {
 						Sub: &roleIn{Vars: map[string]tv{"c": {Ref: "b"}},
 							Children: []*roleIn{{Leaf: "task", Defaults: map[string]tv{"d": {Ref: "a"}}}}}}}}},
 			Ops: []hop{{Addr: []int{0, 1}, Key: "d", Val: sp("1")}}}},
+		// nested iterators: the inner bound is a var that each role generated by the outer iterator
+		// defines from the outer variable (outer 1 and 3 -> 2 and 4 inner roles), a second inner
+		// iterator lists the outer variable itself; the root and the environment define the same names;
+		// a runtime variable set after loading on the first outer role does not change what was generated
+		{"tree", input{Env: &lvl{D: smap{"a": "0", "b": "2"}, V: e, U: e},
+			Tree: &roleIn{Defaults: map[string]tv{"a": {Lit: "0"}}, Vars: map[string]tv{"i": {Lit: "2"}},
+				Children: []*roleIn{{IterVar: "i", IterItems: []tv{{Lit: "1"}, {Lit: "3"}},
+					Tpl: &roleIn{NameRef: "i", Vars: map[string]tv{"a": {Ref: "i"}},
+						Children: []*roleIn{
+							{IterVar: "j", IterBegin: &tv{Lit: "0"}, IterEnd: &tv{Ref: "a"},
+								Tpl: &roleIn{NameRef: "j", Vars: map[string]tv{"c": {Ref: "a"}}, Leaf: "call"}},
+							{IterVar: "b", IterItems: []tv{{Ref: "i"}, {Lit: "x"}},
+								Tpl: &roleIn{Leaf: "task", Defaults: map[string]tv{"d": {Ref: "b"}}}}}}}}},
+			Ops: []hop{{Addr: []int{0, 0}, Key: "a", Val: sp("1")}}}},
 	}
 }
 
